@@ -365,6 +365,32 @@ func runPermits(o *Out, r *rand.Rand, thorough bool, _ []string) {
 		g.stop()
 	}
 
+	// (4a) offers that wait in the queue while their target LEAVES the routing table (a failed revalidation, an operator's
+	// delete): a node with its offer workers running gossips twelve items to silent peers - far more offers than workers get
+	// through at once -, the peers are deleted from the table straight away; when the queue has drained and the timeouts have
+	// passed every slot is free
+	if !metricsOn {
+		const burstLimit = 96
+		g := startNode(mn, r, nodeOpts{ip: net.IP{34, 5, 5, 5}, port: 9805, utpLimit: burstLimit})
+		known := fillTable(g, r, 40, false)
+		max, _ := new(uint256.Int).SetAllOne().MarshalSSZ()
+		for id := range known {
+			g.p.VerifRadiusCacheSet(id, max)
+		}
+		sent := 0
+		for i := 0; i < 12; i++ {
+			if n, err := g.p.Gossip(nil, [][]byte{[]byte(fmt.Sprintf("burst-%d", i))}, [][]byte{{1, 2, 3}}); err == nil {
+				sent += n
+			}
+		}
+		for _, kn := range known {
+			g.p.VerifTable().VerifDeleteNode(kn.node)
+		}
+		free := waitFree(g, false, burstLimit, 30*time.Second)
+		o.Case(fmt.Sprintf("gossiprace limit=%d callers=1 calls=12 dropped_from_table=1", burstLimit), fmt.Sprintf("free=%d targets_ge1=%d", free, b2i(sent > 0)))
+		g.stop()
+	}
+
 	// (4b) the same drop, reached the only way a running node reaches it: the queue fills up WHILE gossip calls are under way.
 	// One goroutine keeps topping the queue up, one keeps emptying it (giving back the slots of what it takes out, as the offer
 	// workers do), several call Gossip; the slot limit is above the queue's capacity so that slots never run out first. When all
